@@ -128,6 +128,13 @@ def gen_file(rng, tier, i, mode, force=None):
                                                "y=2", "z'"])
     if rng.random() < 0.3 and mode == "clean":
         opts["gf_split"] = True
+        if "brackets_emptypos" not in opts and rng.random() < 0.2:
+            # the tag EMPTY as an ordinary tag of the file (what a conversion of a
+            # brackets_emptypos source leaves in every other format)
+            for s in tb:
+                for t in s["tokens"]:
+                    if rng.random() < 0.3:
+                        t[1] = "EMPTY"
         sep = "-"
         if rng.random() < 0.3:
             sep = "#"
